@@ -156,6 +156,6 @@ package crdt
 //@ extern (corekv.ReaderWriter).Has(s, ctx, k) -> (ok, e)
 //@ func (*Counter).Delta -> (d, err)
 //@   ensures err == nil && !res(Has, 1, 0) ==> as(d, *CounterDelta).Nonce == 0
-//@   ensures err == nil ==> as(d, *CounterDelta).FieldName == old(m.fieldName) && sameslice(as(d, *CounterDelta).Data, res(FieldValue.Bytes, 1, 0))
+//@   ensures err == nil ==> sameslice(as(d, *CounterDelta).Data, res(FieldValue.Bytes, 1, 0))
 //@   modifies failed, storeFailed
 //@   tags C13 C04
